@@ -200,6 +200,8 @@ class SB:
     __rxor__ = __xor__
 
     def __invert__(self): return SB(z3.Not(self.e))
+    def tolist(self): return bool(self)          # numpy.bool_.tolist() gives a Python bool: decide it here (fork)
+    def item(self): return bool(self)
     def logical_not(self): return SB(z3.Not(self.e))
     def _n(self): return SR(lift(self))
     def __mul__(self, o):
